@@ -1212,6 +1212,16 @@ func findEarlierPageBreak(context *layoutContext, children []Box, absoluteBoxes,
 				if newGrandChildren != nil || resumeAtTmp != nil {
 					resumeAt = resumeAtTmp
 					newChild := bo.CopyWithChildren(child_, newGrandChildren)
+					if bo.BlockT.IsInstance(child_) {
+						// the block is now split: no bottom padding/border on this fragment,
+						// and an auto height ends with the content kept
+						newChild.RemoveDecoration(newChild.Box(), false, true)
+						if child.Style.GetHeight().S == "auto" {
+							if last := findLastInFlowChild(newGrandChildren); last != nil {
+								newChild.Box().Height = last.Box().BorderBoxY() + last.Box().BorderHeight() - newChild.Box().ContentBoxY()
+							}
+						}
+					}
 					newChildren = append(children[:index], newChild)
 
 					// Re-add footer at the end of split table
